@@ -195,6 +195,51 @@ def b_ties(ctx):
                 rule="10 groups x 7 special rotations (multiples of 30/45 degrees); non-trivial = the maximal trace is attained more than once")
 
 
+def b_makeuniq(ctx):
+    """the user refinegrains.makeuniq: every read matrix and every grain's *current* matrix is replaced by the canonical member of its
+    own orbit (the grain matrices differ from the read ones after refinement)"""
+    import contextlib
+    import io
+    su, groups = _groups()
+    rg = repo_module("ImageD11.refinegrains")
+    gm = repo_module("ImageD11.grain")
+    rng = np.random.RandomState(ctx.seed)
+    fails, ev = [], 0
+    for sym in ("cubic", "hexagonal", "tetragonal", "orthorhombic"):
+        g = su.getgroup(sym)()
+        with contextlib.redirect_stdout(io.StringIO()):
+            o = rg.refinegrains()
+        read, cur = {}, {}
+        for k in range(3):
+            q = rng.normal(size=4)
+            q /= np.linalg.norm(q)
+            a, b, c, d = q
+            U = np.array([[a*a+b*b-c*c-d*d, 2*(b*c-a*d), 2*(b*d+a*c)], [2*(b*c+a*d), a*a-b*b+c*c-d*d, 2*(c*d-a*b)],
+                          [2*(b*d-a*c), 2*(c*d+a*b), a*a-b*b-c*c+d*d]])
+            read[k] = np.linalg.inv(U * 0.25)
+            for scan in ("scanA", "scanB"):
+                # a refined grain: another member of the orbit, slightly strained and rotated
+                h = g.group[rng.randint(len(g.group))]
+                cur[(k, scan)] = np.dot(h, read[k]).dot(np.eye(3) + 0.01 * (rng.rand(3, 3) - 0.5))
+        o.grainnames = list(read)
+        o.ubisread = {k: v.copy() for k, v in read.items()}
+        o.grains = {key: gm.grain(v.copy()) for key, v in cur.items()}
+        o.makeuniq(sym)
+        ev += 1
+        for k, v in read.items():
+            if not np.allclose(o.ubisread[k], su.find_uniq_u(v.copy(), g), atol=1e-12):
+                fails.append(dict(name="makeuniq: a read matrix is not replaced by the canonical member of its orbit", symmetry=sym, grain=k))
+        for key, v in cur.items():
+            got = o.grains[key].ubi
+            orbit = [np.dot(h, v) for h in g.group]
+            if not any(np.allclose(got, m, atol=1e-12) for m in orbit):
+                fails.append(dict(name="makeuniq: a grain's matrix left the orbit of its own current matrix", symmetry=sym, grain=list(map(str, key))))
+            elif not np.allclose(got, su.find_uniq_u(v.copy(), g), atol=1e-12):
+                fails.append(dict(name="makeuniq: a grain's matrix is not the canonical member of its orbit", symmetry=sym, grain=list(map(str, key))))
+    return dict(evaluations=ev, distinct_nontrivial=ev, samples=[dict(symmetries=4, grains=3, scans=2)], failures=fails[:8],
+                rule="4 symmetries x 3 grains x 2 scans, refined grains = another orbit member with 1% distortion")
+
+
 def gen_hkls(ctx):
     su, groups = _groups()
     obs = []
@@ -246,4 +291,5 @@ def units():
             GenUnit("py:sym_u.groups.preserve_metric", gen_metric, "trace"),
             GenUnit("py:sym_u.find_uniq_u", gen_find_uniq_u, "trace"),
             GenUnit("py:sym_u.find_uniq_hkls", gen_hkls, "trace"),
-            BoundedUnit("find_uniq_u-on-ties", b_ties, "10 groups x 7 special rotations")]
+            BoundedUnit("find_uniq_u-on-ties", b_ties, "10 groups x 7 special rotations"),
+            BoundedUnit("refinegrains-makeuniq", b_makeuniq, "4 symmetries x 3 grains x 2 scans")]
